@@ -13,6 +13,8 @@
 (*   [t |-> "split", from, to, ...]   '-from(x, y)' '+pair(to(x), to(y))': *)
 (*        every two-argument call of `from` becomes two one-argument calls *)
 (*        of `to` (code that a later change has to bind site by site)      *)
+(*   [t |-> "renlit", from, to, ...]  '-from(x)' '+to(x)' with x undeclared: *)
+(*        only calls whose argument is the identifier x (argument 0)       *)
 (*   [t |-> "fail", from, guard, ...]         matches calls of `from`, but *)
 (*        its replacement cannot be built (the step fails)                 *)
 (*                                                                         *)
@@ -37,16 +39,19 @@ Rules ==
       f \in Atoms, x \in Targets, g \in Pkgs \cup {""}, n \in Pkgs \cup {""}}
   \cup {[t |-> "fail", from |-> f, to |-> f, guard |-> g, newpkg |-> ""] : f \in Atoms, g \in Pkgs \cup {""}}
   \cup {[t |-> "split", from |-> f, to |-> x, guard |-> "", newpkg |-> ""] : f \in Atoms, x \in Targets}
-WellFormedRule(r) == /\ (r.t = "ren" => r.from # r.to)
+  \* '-from(x)' '+to(x)' WITHOUT declaring x: x is the plain identifier x, so only calls whose
+  \* argument is that identifier are renamed (argument 0 stands for the identifier x)
+  \cup {[t |-> "renlit", from |-> f, to |-> x, guard |-> "", newpkg |-> ""] : f \in Atoms, x \in Targets}
+WellFormedRule(r) == /\ (r.t \in {"ren", "renlit"} => r.from # r.to)
                      /\ (r.newpkg # "" => (r.guard # "" /\ r.newpkg # r.guard))   \* a rename is written '-package g' '+package n'
-Calls == {[f |-> a, args |-> <<v>>] : a \in Atoms, v \in {1, 2}} \cup {[f |-> a, args |-> <<1, 2>>] : a \in Atoms}
+Calls == {[f |-> a, args |-> <<v>>] : a \in Atoms, v \in {0, 1, 2}} \cup {[f |-> a, args |-> <<1, 2>>] : a \in Atoms}
 Files == [pkg : Pkgs, body : UNION {[1..n -> Calls] : n \in 1..MaxLen}]
 
 SeqToSet(s) == {s[i] : i \in 1..Len(s)}
 
 \* ---------------------------------------------------------------- one step --
 Arity(r) == IF r.t = "split" THEN 2 ELSE 1
-Hit(c, r) == c.f = r.from /\ Len(c.args) = Arity(r)
+Hit(c, r) == c.f = r.from /\ Len(c.args) = Arity(r) /\ (r.t = "renlit" => c.args = <<0>>)
 Matches(file, r) == (r.guard = "" \/ r.guard = file.pkg) /\ \E i \in 1..Len(file.body) : Hit(file.body[i], r)
 RECURSIVE RewriteBody(_, _, _)
 RewriteBody(b, r, i) ==
